@@ -726,3 +726,15 @@ def poly_identity(a, b):
     if z3.is_rational_value(r) and r.numerator_as_long() == 0:
         return True
     return None
+
+
+def rebuild_on_load(m, ty, model_):
+    """run the load-time conversion <ty>DataModel -> ty, whichever form the crate declares for serde (`from` or `try_from`).
+    Returns ("from", value) or ("try_from", Result value)."""
+    from mirsym.machine import Unsupported
+    try:
+        return "from", m.call_text(f"<{ty} as From<{ty}DataModel>>::from", [model_], [parse_type(f"{ty}DataModel")], parse_type(ty))
+    except Unsupported as e:
+        if not any(k in str(e) for k in ("From::from", "no model", "resolve", "callee")):
+            raise
+    return "try_from", m.call_text(f"<{ty} as TryFrom<{ty}DataModel>>::try_from", [model_], [parse_type(f"{ty}DataModel")], parse_type(f"Result<{ty}, String>"))
